@@ -10,6 +10,7 @@ import (
 	"github.com/ipld/go-car/v2/index"
 	"github.com/ipld/go-car/v2/internal/carv1"
 	internalio "github.com/ipld/go-car/v2/internal/io"
+	"github.com/ipld/go-car/v2/verifhook"
 	"github.com/multiformats/go-varint"
 )
 
@@ -128,8 +129,10 @@ func Resume(
 		// This effectively means resuming from a finalized file will wipe its index even if there
 		// are no blocks put unless the user calls finalize.
 		if err := rw.(interface{ Truncate(size int64) error }).Truncate(int64(headerInFile.DataOffset + headerInFile.DataSize)); err != nil {
+			verifhook.OnTruncate(rw, int64(headerInFile.DataOffset+headerInFile.DataSize), err)
 			return err
 		}
+		verifhook.OnTruncate(rw, int64(headerInFile.DataOffset+headerInFile.DataSize), nil)
 	}
 
 	if !v1 {
